@@ -16,6 +16,7 @@ import (
 	ibctm "github.com/cosmos/ibc-go/v11/modules/light-clients/07-tendermint"
 	localhost "github.com/cosmos/ibc-go/v11/modules/light-clients/09-localhost"
 	ibctesting "github.com/cosmos/ibc-go/v11/testing"
+	ibcmock "github.com/cosmos/ibc-go/v11/testing/mock"
 	mockv2 "github.com/cosmos/ibc-go/v11/testing/mock/v2"
 
 	"verif/harness/hx"
@@ -112,7 +113,7 @@ func (w *W) initConfig() map[string]any {
 		}
 		h, t := w.begin(ci)
 		chains = append(chains, map[string]any{"chans": chs, "conns": cns, "clients": cls, "nr": nr, "na": na, "ns": ns,
-			"cps": cps, "als": als, "ports": []any{w.ids.id(ibctesting.MockPort)}, "h": hj(h), "t": hx.U(t), "app": hx.U(w.appState(ci)),
+			"cps": cps, "als": als, "ports": []any{w.ids.id(ibctesting.MockPort), w.ids.id(ibcmock.MockBlockUpgrade)}, "h": hj(h), "t": hx.U(t), "app": hx.U(w.appState(ci)),
 			"ver": hx.U(uint64(c.App.LastBlockHeight()))})
 	}
 	cfg["chains"] = chains
